@@ -154,6 +154,17 @@ var Items = []Item{
 	{ID: "multi-var", Core: "var a, b uint64\n\tr = a + b + 1", NoCtx: true},
 	{ID: "local-const", Core: "const k uint64 = 4\n\tr = k", NoCtx: true},
 	{ID: "local-type", Core: "type L struct{ a uint64 }\n\tl := L{a: 2}\n\tr = l.a", NoCtx: true},
+	// blank identifiers × statement form (seeded change C07-6)
+	{ID: "blank-multi-assign-two", Decls: "func twob%N%() (uint64, uint64) {\n\treturn 1, 2\n}", Core: "_, _ = twob%N%()\n\tr = 1"},
+	{ID: "blank-multi-assign-among-targets", Decls: "func threeb%N%() (uint64, uint64, uint64) {\n\treturn 1, 2, 3\n}", Setup: "var x uint64 = 0", Core: "_, x, _ = threeb%N%()\n\tr = x"},
+	{ID: "blank-single-assign", Setup: "x := uint64(3)", Core: "_ = x\n\tr = x"},
+	{ID: "blank-define-one-of-two", Decls: "func twoc%N%() (uint64, uint64) {\n\treturn 1, 2\n}", Core: "x, _ := twoc%N%()\n\tr = x", NoCtx: true},
+	{ID: "blank-define-both", Decls: "func twod%N%() (uint64, uint64) {\n\treturn 1, 2\n}", Core: "var a uint64\n\tvar b uint64\n\ta, b = twod%N%()\n\t_, _ = a, b\n\tr = a + b", NoCtx: true},
+	{ID: "blank-range-both", Setup: "s := make([]uint64, 3)", Core: "for _, _ = range s {\n\t\tr += 1\n\t}"},
+	{ID: "blank-range-key-only", Setup: "s := make([]uint64, 3)", Core: "for _ = range s {\n\t\tr += 1\n\t}"},
+	{ID: "blank-map-comma-ok", Setup: "m := make(map[uint64]uint64)\n\tm[1] = 2", Core: "_, ok := m[1]\n\tif ok {\n\t\tr = 1\n\t}", NoCtx: true},
+	{ID: "blank-var-decl", Core: "var _ uint64 = 3\n\tr = 1", NoCtx: true},
+	{ID: "multi-assign-index-uses-assigned", Decls: "func twoe%N%() (uint64, uint64) {\n\treturn 1, 7\n}", Setup: "var i uint64 = 0\n\ta := make([]uint64, 3)", Core: "i, a[i] = twoe%N%()\n\tr = a[0]*10 + a[1] + i*100"},
 	{ID: "swap-assign", Setup: "var a uint64 = 1\n\tvar b uint64 = 2", Core: "a, b = b, a\n\tr = a*10 + b"},
 	{ID: "loop-return", Decls: "func lr%N%() uint64 {\n\tfor i := uint64(0); i < 3; i++ {\n\t\tif i == 1 {\n\t\t\treturn i + 10\n\t\t}\n\t\tcontinue\n\t}\n\treturn 0\n}", Core: "r = lr%N%()"},
 	{ID: "early-return-with-else", Decls: "func ee%N%(x uint64) uint64 {\n\tvar y uint64\n\tif x == 0 {\n\t\treturn 5\n\t} else {\n\t\ty = 1\n\t}\n\treturn y + 1\n}", Core: "r = ee%N%(1)*10 + ee%N%(0)"},
